@@ -244,7 +244,7 @@ func c10One(c *Ctx, pki *PKI, cs c10Case, r *Rand, idx int) {
 	got := map[int64]int{}
 	sawEOF := false
 	for {
-		m, err := cl.ReadMsg(patience)
+		m, err := cl.ReadMsg(10 * time.Second)
 		if err != nil {
 			if isTimeout(err) {
 				c.Violate("connection not closed after Unbind", fmt.Sprintf("%v: no EOF within patience", cs), det)
